@@ -20,6 +20,7 @@ import (
 	"context"
 	"fmt"
 	"io"
+	"math"
 	"strings"
 	"sync"
 
@@ -36,6 +37,8 @@ import (
 func ReadIntoGraph(ctx context.Context, g storage.Graph, r io.Reader, b literal.Builder) (int, error) {
 	cnt, scanner := 0, bufio.NewScanner(r)
 	scanner.Split(bufio.ScanLines)
+	// Text and blob literals can be arbitrarily long, hence so can a line.
+	scanner.Buffer(make([]byte, 0, bufio.MaxScanTokenSize), math.MaxInt32)
 	for scanner.Scan() {
 		text := strings.TrimSpace(scanner.Text())
 		if text == "" {
@@ -47,6 +50,9 @@ func ReadIntoGraph(ctx context.Context, g storage.Graph, r io.Reader, b literal.
 		}
 		cnt++
 		g.AddTriples(ctx, []*triple.Triple{t})
+	}
+	if err := scanner.Err(); err != nil {
+		return cnt, err
 	}
 	return cnt, nil
 }
